@@ -281,10 +281,8 @@ func ruleN(c *Ctx) {
 				if cnt[base] > 1 {
 					key += "#" + itoa(cnt[base])
 				}
-				if tname == "OffsT" {
-					c.excepted("N", key, cv.Pos(), "conversion to OffsT: the documented 65,535-byte addressing limit")
-					continue
-				}
+				// (conversions of *positions* to OffsT are the documented 65,535-byte limit; this rule only
+				// looks at accumulator-derived numbers, for which truncation to 16 bits is a defect)
 				env := newRangeEnv(fn)
 				lo, hi := env.rng(cv.X, b)
 				tlo, thi, _ := typeRangeExact(cv.Type())
